@@ -23,10 +23,10 @@ func init() {
 	register(&core.Rule{ID: "RES-NOREBIND", Props: []string{"C01", "C04"}, Floor: 4,
 		Doc: "the store into ctx.resources is reached only at configuration time, or from critical-section code under an absence test of that key (a live cell must never be replaced)",
 		Run: runResNoRebind})
-	register(&core.Rule{ID: "KIND-STACK", Props: []string{"C04"}, Floor: 3,
+	register(&core.Rule{ID: "KIND-STACK", Props: []string{"C04", "C02"}, Floor: 3,
 		Doc: "the .stack cell holds a sequence of frames: it is only written with sequence constructors and a value read from it is never used directly as a function/set/scalar",
 		Run: runKindStack})
-	register(&core.Rule{ID: "CALL-ORDER", Props: []string{"C04"}, Floor: 8,
+	register(&core.Rule{ID: "CALL-ORDER", Props: []string{"C04", "C02"}, Floor: 8,
 		Doc: "Call saves each state variable before binding it, records the return label, pushes the frame after the loop, then runs the preamble and jumps; Return pops with Tail and writes every saved pair back; TailCall takes the return label before Return() and passes it to Call",
 		Run: runCallOrder})
 }
